@@ -10,7 +10,7 @@
    whole remaining input.  Property theorems only; proofs are in Proofs/JsonPlus*.v. *)
 From Verif Require Import Lib.Base Lib.Sx Gen.Gen_json Model.JsonPlus.
 From Verif Require Import Proofs.JsonPlusIndex Proofs.JsonPlusSplit Proofs.JsonPlusScan
-  Proofs.JsonPlusStrip Proofs.JsonPlusTotal Proofs.JsonPlusExamples Proofs.JsonPlusLex Proofs.JsonPlusRead.
+  Proofs.JsonPlusStrip Proofs.JsonPlusTotal Proofs.JsonPlusExamples Proofs.JsonPlusLex Proofs.JsonPlusRead Proofs.JsonPlusBig.
 Open Scope N_scope.
 
 (* [core] A token the split function returns on a prefix of the input (not at EOF) is returned
@@ -81,6 +81,18 @@ Theorem c17_consumer_ends segs fin dt rds :
   Forall (fun n => 0 < n) rds -> (length (fst (reader_dt segs fin dt)) < length rds)%nat ->
   snd (reader_rd segs fin dt rds) <> None.
 Proof. exact (reader_rd_ends segs fin dt rds). Qed.
+
+(* very large documents (strings, comments, marker-free stretches of megabytes; a megabyte of small
+   tokens) are described run-length encoded and not expanded on the model side: the observation
+   the model reports for them -- length and byte sum of the undecorated text, computed from the
+   description -- is the summary of what the reader model outputs on the expanded document, for
+   every segmentation, and the stream ends with EOF.  There is no size above which this changes
+   (up to the 2^62 of c17_limit). *)
+Theorem c17_big_documents d segs dt :
+  big_ok d = true -> runs_ok segs -> concat segs = render_dec (map expand_item d) None ->
+  lenN (concat segs) < tok_limit ->
+  summary (fst (reader_dt segs 0 dt)) = big_plain d /\ snd (reader_dt segs 0 dt) = Ok tt.
+Proof. exact (big_obs_sound d segs dt). Qed.
 
 (* NewCommentReader with other marker tables (the API takes them as arguments): the split function
    and the reader are modelled generically over the tables and run against the implementation
@@ -169,6 +181,7 @@ Print Assumptions c17_limit.
 Print Assumptions c17_consumer.
 Print Assumptions c17_consumer_any.
 Print Assumptions c17_consumer_ends.
+Print Assumptions c17_big_documents.
 Print Assumptions c17_generic_tables.
 Print Assumptions c17_read_error.
 Print Assumptions c17_strip.
